@@ -1,5 +1,7 @@
 import TempestVerif.Drv.Util
 import TempestVerif.Model.Student
+import TempestVerif.Model.StudentNu
+import TempestVerif.Model.StudentModes
 /- line-protocol handlers of property C19 (Student-t fit) -/
 namespace Drv.C19
 open Drv Model.Student
@@ -51,12 +53,143 @@ def dof (α : Type) [Sc α] [Codec α] (args : List (String × String)) : String
       | .nan => "nan"
   | _, _, _ => "bad-op"
 
+
+/-! ### `opt_nu`, `func0`, scipy's `bisect` (Model/StudentNu.lean) -/
+
+/-- a function given by a finite table (`xs[i] ↦ ys[i]`, keys compared through their exact wire form); a point outside the
+    table gives `0` — the caller compares the evaluation points with the real run, so the first deviation is seen there -/
+def tableFn {α : Type} [Sc α] [Codec α] (xs ys : List α) (x : α) : α :=
+  let k := Codec.shw x
+  match (xs.zip ys).find? (fun p => Codec.shw p.1 == k) with
+  | some p => p.2
+  | none => Sc.zero
+
+def showBis {α : Type} [Codec α] (r : BisOut α) : String :=
+  let h := match r.res with
+    | .root x => s!"root {Codec.shw x}"
+    | .signErr => "signerr -"
+    | .nanErr x => s!"nanerr {Codec.shw x}"
+    | .convErr => "converr -"
+  s!"{h} {showList Codec.shw r.evals}"
+
+/-- `sbis.F a=<s> b=<s> [xtol=<s> rtol=<s> maxit=<nat>] xs=<scalars> ys=<scalars>`  (defaults: scipy's, as in the model)
+    → `root <x> | signerr - | nanerr <x> | converr -` followed by the evaluation points in order -/
+def bis (α : Type) [Sc α] [Codec α] (args : List (String × String)) : String :=
+  match (getArg args "a").bind (Codec.parse (α := α)), (getArg args "b").bind (Codec.parse (α := α)),
+        (getArg args "xs").bind (parseList? (Codec.parse (α := α))),
+        (getArg args "ys").bind (parseList? (Codec.parse (α := α))) with
+  | some a, some b, some xs, some ys =>
+    let xtol := ((getArg args "xtol").bind (Codec.parse (α := α))).getD bisXtol
+    let rtol := ((getArg args "rtol").bind (Codec.parse (α := α))).getD bisRtol
+    let maxit := ((getArg args "maxit").bind String.toNat?).getD bisIter
+    showBis (bisect (tableFn xs ys) a b xtol rtol maxit)
+  | _, _, _, _ => "bad-op"
+
+/-- `optnu.F xs=<scalars> ys=<scalars>` (the values of `func0` at the points the real run evaluated it)
+    → `val <x> | inf | fail | raise` followed by the evaluation points in order -/
+def optnu (α : Type) [Sc α] [Codec α] (args : List (String × String)) : String :=
+  match (getArg args "xs").bind (parseList? (Codec.parse (α := α))),
+        (getArg args "ys").bind (parseList? (Codec.parse (α := α))) with
+  | some xs, some ys =>
+    let r := optNuWith (tableFn xs ys)
+    let h := match r.1 with
+      | .val x => s!"val {Codec.shw x}" | .inf => "inf" | .fail => "fail" | .raise => "raise"
+    s!"{h} {showList Codec.shw r.2}"
+  | _, _ => "bad-op"
+
+/-- `func0.F dim=<nat> n=<nat> delta=<scalars> nu=<scalar> pxs=<scalars> pys=<scalars>` (`special.psi` as a table)
+    → the value of `func0(nu)` -/
+def func0c (args : List (String × String)) : String :=
+  match (getArg args "dim").bind String.toNat?, (getArg args "n").bind String.toNat?,
+        (getArg args "delta").bind (parseList? parseFloat?), (getArg args "nu").bind parseFloat?,
+        (getArg args "pxs").bind (parseList? parseFloat?), (getArg args "pys").bind (parseList? parseFloat?) with
+  | some dim, some n, some dl, some nu, some pxs, some pys =>
+    showFloat (func0 (tableFn pxs pys) dim n dl nu)
+  | _, _, _, _, _, _ => "bad-op"
+
+/-- `nuconst.F` → the constants of the ν-update as the model has them: `nuLo nuMax xtol rtol maxiter defaultTol defaultMaxIter` -/
+def nuconst (α : Type) [Sc α] [Codec α] : String :=
+  s!"{Codec.shw (nuLo : α)} {Codec.shw (nuMax : α)} {Codec.shw (bisXtol : α)} {Codec.shw (bisRtol : α)} {bisIter} {Codec.shw (defaultTol : α)} {defaultMaxIter}"
+
+/-! ### `ModeStatistics.from_global / from_particles`, `Trainer.run` (Model/StudentModes.lean) -/
+
+open Model.StudentModes in
+def showDof {α : Type} [Codec α] : Dof α → String
+  | .fin x => s!"fin:{Codec.shw x}" | .inf => "inf" | .nan => "nan"
+
+def parseDof? {α : Type} [Codec α] (s : String) : Option (Dof α) :=
+  if s == "inf" then some .inf else if s == "nan" then some .nan else
+  match s.splitOn ":" with
+  | ["fin", x] => (Codec.parse (α := α) x).map .fin
+  | _ => none
+
+def rowsOf {α : Type} (d n : Nat) (flat : Array α) : Option (List (List α)) :=
+  if flat.size != n * d then none else
+  (List.range n).mapM fun i => (List.range d).mapM fun a => flat[i * d + a]?
+
+open Model.StudentModes in
+def showBuilt {α : Type} [Codec α] : Built α → String
+  | .valueError => "valueerror"
+  | .raised => "raised"
+  | .ok ms =>
+    let lab := match ms.labels with | none => "none" | some l => showList toString l
+    s!"ok {ms.means.length} {showList Codec.shw ms.means.flatten} {showList Codec.shw (ms.covs.flatMap (·.flatten))} {showList showDof ms.dofs} {lab}"
+
+open Model.StudentModes in
+/-- `smodes.F kind=global|particles|trainer d=<nat> N=<nat> u=<N·d scalars> w=<scalars> labels=<nats> fb=<scalar> rf=<nat>
+        us=<uniforms> fits=<per mode, ';'-separated: a tape of opt_nu events (real fit), `stub:<dof>` or `echo`>
+        [path=dummy|fitPredict|predictOnly|global | bz=<0|1> cl=<0|1> oc=<0|1> ft=<0|1>]`
+    → `ok K <means> <covs> <dofs> <labels|none>` | `valueerror` | `raised` -/
+def modes (α : Type) [Sc α] [Codec α] (args : List (String × String)) : String :=
+  match getArg args "kind", (getArg args "d").bind String.toNat?, (getArg args "N").bind String.toNat?,
+        (getArg args "u").bind (parseList? (Codec.parse (α := α))),
+        (getArg args "w").bind (parseList? (Codec.parse (α := α))),
+        (getArg args "labels").bind parseNatList?,
+        (getArg args "fb").bind (Codec.parse (α := α)), (getArg args "rf").bind String.toNat?,
+        (getArg args "us").bind (parseList? (Codec.parse (α := α))), getArg args "fits" with
+  | some kind, some d, some n, some uflat, some w, some labels, some fb, some rf, some us, some fitsS =>
+    let mkFit (s : String) : Option (Mat α → Option (FitOut α)) :=
+      match s.splitOn ":" with
+      | "stub" :: rest =>
+        (parseDof? (α := α) (":".intercalate rest)).map fun t => fun rows =>
+          if rows.isEmpty then none
+          else some ⟨(List.range d).map (fun a => (Sc.ofNat a : α)), (List.range d).map (fun i => (identRow d i).map (Sc.mul Sc.two)), t⟩
+      | ["echo"] => some fun rows => some ⟨rows.flatten, [], .inf⟩      -- shows the data handed to the fit
+      | _ => (parseList? (parseNu? (α := α)) s).map fun tape => fitRowsTape d tape
+    match rowsOf d n uflat.toArray, (if fitsS == "-" then some [] else (fitsS.splitOn ";").mapM mkFit) with
+    | some u, some fits =>
+      let b := fun (x : String) => getArg args x == some "1"
+      match kind with
+      | "global" => (match fits with
+          | f :: _ => showBuilt (fromGlobal f u w fb rf us)
+          | [] => "bad-op")
+      | "particles" => showBuilt (fromParticles fits u w labels fb rf us)
+      | "trainer" => showBuilt (trainerRun (trainerPath (b "bz") (b "cl") (b "oc") (b "ft")) fits d u w labels fb us)
+      | _ => "bad-op"
+    | _, _ => "bad-op"
+  | _, _, _, _, _, _, _, _, _, _ => "bad-op"
+
+/-- `tpath.X bz=<0|1> cl=<0|1> oc=<0|1> ft=<0|1>` → the branch of `Trainer.run` -/
+def tpath (args : List (String × String)) : String :=
+  let b := fun (x : String) => getArg args x == some "1"
+  match Model.StudentModes.trainerPath (b "bz") (b "cl") (b "oc") (b "ft") with
+  | .dummy => "dummy" | .fitPredict => "fitPredict" | .predictOnly => "predictOnly" | .global => "global"
+
 def handle (cmd : String) (args : List (String × String)) : Option String :=
   match cmd with
   | "mvst.F" => some (mvst Float args)
   | "mvst.Q" => some (mvst Rat args)
   | "dof.F" => some (dof Float args)
   | "dof.Q" => some (dof Rat args)
+  | "sbis.F" => some (bis Float args)
+  | "sbis.Q" => some (bis Rat args)
+  | "optnu.F" => some (optnu Float args)
+  | "optnu.Q" => some (optnu Rat args)
+  | "func0.F" => some (func0c args)
+  | "nuconst.F" => some (nuconst Float)
+  | "smodes.F" => some (modes Float args)
+  | "smodes.Q" => some (modes Rat args)
+  | "tpath.X" => some (tpath args)
   | _ => none
 
 end Drv.C19
